@@ -37,7 +37,7 @@ func (in *Instance) GenesisFromAbstract(g M) types.GenesisState {
 		gs.NextAvailableNonce = &types.Nonce{Nonce: t.Nonce(v)}
 	}
 	if v, ok := opt(g, "threshold"); ok {
-		gs.SignatureThreshold = &types.SignatureThreshold{Amount: uint32(v)}
+		gs.SignatureThreshold = &types.SignatureThreshold{Amount: ThresholdVal(v)}
 	}
 	for _, a := range arr(g, "attesters") {
 		am := a.(map[string]any)
@@ -85,7 +85,7 @@ func (in *Instance) ProjectGenesis(gs *types.GenesisState) M {
 		g["nextNonce"] = t.NonceSym(gs.NextAvailableNonce.Nonce)
 	}
 	if gs.SignatureThreshold != nil {
-		g["threshold"] = int(gs.SignatureThreshold.Amount)
+		g["threshold"] = ThresholdSym(gs.SignatureThreshold.Amount)
 	}
 	atts, lims, pairs, used, msgrs := []any{}, []any{}, []any{}, []any{}, []any{}
 	for _, a := range gs.AttesterList {
